@@ -1678,6 +1678,22 @@ impl TransactionBuilder {
 
     fn validate_fee(&self) -> Result<(), JsError> {
         if let Some(fee) = &self.get_fee_if_set() {
+            // a fee that was computed before `set_fee` / `set_min_fee` was called must still honour that request
+            match &self.fee_request {
+                TxBuilderFee::Exactly(exact_fee) if fee != exact_fee => {
+                    return Err(JsError::from_str(&format!(
+                        "Fee differs from the fee set by `set_fee`. Requested fee: {}, Fee: {}",
+                        exact_fee, fee
+                    )));
+                }
+                TxBuilderFee::NotLess(not_less) if fee < not_less => {
+                    return Err(JsError::from_str(&format!(
+                        "Fee is less than the fee set by `set_min_fee`. Requested minimal fee: {}, Fee: {}",
+                        not_less, fee
+                    )));
+                }
+                _ => {}
+            }
             let min_fee = min_fee(&self)?;
             if fee < &min_fee {
                 Err(JsError::from_str(&format!(
